@@ -180,6 +180,28 @@ fn run_handler(sc: &Value) -> Value {
     json!({"steps": out})
 }
 
+/// the real SystemTimer::run on a current-thread runtime whose only thread is blocked for `stall_ms` after half a second;
+/// at `observe_ms` the clock is compared with the real time that has passed
+fn run_timer(sc: &Value) -> Value {
+    use memcrs::server::timer::{SystemTimer, Timer};
+    let stall = sc["stall_ms"].as_u64().unwrap_or(3200);
+    let observe = sc["observe_ms"].as_u64().unwrap_or(6500);
+    let timer = Arc::new(SystemTimer::new());
+    let t2 = timer.clone();
+    let rt = tokio::runtime::Builder::new_current_thread().enable_all().build().unwrap();
+    let (ts, el) = rt.block_on(async move {
+        let begin = std::time::Instant::now();
+        let t3 = t2.clone();
+        tokio::spawn(async move { t3.run().await });
+        tokio::time::sleep(std::time::Duration::from_millis(500)).await;
+        std::thread::sleep(std::time::Duration::from_millis(stall));
+        let rest = observe.saturating_sub(begin.elapsed().as_millis() as u64);
+        tokio::time::sleep(std::time::Duration::from_millis(rest)).await;
+        (t2.timestamp(), begin.elapsed().as_millis() as u64)
+    });
+    json!({"timestamp": ts, "elapsed_ms": el})
+}
+
 fn main() {
     // keep panic messages out of stderr noise; they are reported in the JSON
     std::panic::set_hook(Box::new(|_| {}));
@@ -198,6 +220,7 @@ fn main() {
             "socket" => sock::run_socket(sc),
             "sched" => sched::run_sched(sc),
             "server" => sock::run_server(sc),
+            "timer" => run_timer(sc),
             k => json!({"error": format!("unknown scenario kind {}", k)}),
         };
         outs.push(out);
